@@ -39,7 +39,7 @@ def project(rows, types):
 
 
 PROBES_BY = {
-    "C13": ["ops", "reads", "chunked_reads", "multi_chunk_reads", "appends", "finalized", "buffer_flushes", "caller_reused_its_object", "dictionary_typed_parquet"],
+    "C13": ["ops", "reads", "chunked_reads", "multi_chunk_reads", "appends", "finalized", "buffer_flushes", "caller_reused_its_object", "dictionary_typed_parquet", "parquet_from_sliced_frame"],
     "C14": ["ops", "merges", "tie_merges", "sortedness_faults", "abandoned_merges"],
 }
 
@@ -111,11 +111,12 @@ def make_machine(which, base_dir):
 
             @rule(table=st.sampled_from(NAMES), types=st.lists(st.sampled_from(TYPES), min_size=1, max_size=4),
                   rows=st.lists(st.lists(cell, min_size=4, max_size=4), min_size=0, max_size=25),
-                  row_group_size=st.integers(1, 12), dict_strings=st.sampled_from([False, False, True]))
-            def parquet_direct(self, table, types, rows, row_group_size, dict_strings):
+                  row_group_size=st.integers(1, 12), dict_strings=st.sampled_from([False, False, True]),
+                  index_start=st.sampled_from([0, 0, 0, 3, 40]))
+            def parquet_direct(self, table, types, rows, row_group_size, dict_strings, index_start):
                 cols = [f"c{i}{t[0]}" for i, t in enumerate(types)]
                 self._do("parquet_direct", table=table, columns=cols, types=types, rows=project(rows, types),
-                         row_group_size=row_group_size, dict_strings=dict_strings)
+                         row_group_size=row_group_size, dict_strings=dict_strings, index_start=index_start)
 
             @precondition(lambda self: any(t["final"] for t in self.world.tables.values()))
             @rule(data=st.data(), via=st.sampled_from(["direct", "direct", "frame", "mapped_frame", "mapped", "joined", "computed"]),
